@@ -1,0 +1,91 @@
+// Copyright 2023 Ross Light
+//
+// Licensed under the Apache License, Version 2.0 (the "License");
+// you may not use this file except in compliance with the License.
+// You may obtain a copy of the License at
+//
+//		 https://www.apache.org/licenses/LICENSE-2.0
+//
+// Unless required by applicable law or agreed to in writing, software
+// distributed under the License is distributed on an "AS IS" BASIS,
+// WITHOUT WARRANTIES OR CONDITIONS OF ANY KIND, either express or implied.
+// See the License for the specific language governing permissions and
+// limitations under the License.
+//
+// SPDX-License-Identifier: Apache-2.0
+
+//go:build verif
+
+package commonmark
+
+// This file is only compiled with the "verif" build tag.
+// It exposes the unexported line recognizers and byte classifiers
+// so that an external conformance harness can enumerate them directly.
+// It adds no behavior.
+
+// VerifThematicBreak exposes parseThematicBreak.
+func VerifThematicBreak(line []byte) (end int) { return parseThematicBreak(line) }
+
+// VerifATXHeading exposes parseATXHeading.
+func VerifATXHeading(line []byte) (level, contentStart, contentEnd int) {
+	h := parseATXHeading(line)
+	return h.level, h.content.Start, h.content.End
+}
+
+// VerifSetextUnderline exposes parseSetextHeadingUnderline.
+func VerifSetextUnderline(line []byte) (level int) { return parseSetextHeadingUnderline(line) }
+
+// VerifCodeFence exposes parseCodeFence.
+func VerifCodeFence(line []byte) (char byte, n, infoStart, infoEnd int) {
+	f := parseCodeFence(line)
+	return f.char, f.n, f.info.Start, f.info.End
+}
+
+// VerifListMarker exposes parseListMarker.
+func VerifListMarker(line []byte) (delim byte, n, end int) {
+	m := parseListMarker(line)
+	return m.delim, m.n, m.end
+}
+
+// VerifAutolink exposes parseAutolink.
+func VerifAutolink(text []byte) (end int) { return parseAutolink(text) }
+
+// VerifCharacterEscape exposes parseCharacterEscape.
+func VerifCharacterEscape(text []byte) (end int) { return parseCharacterEscape(text) }
+
+// VerifByteClass reports the byte classifiers for c as a bit set:
+// 1 = isASCIIPunctuation, 2 = isASCIIControl, 4 = isHex,
+// 8 = isSpaceTabOrLineEnding, 16 = isASCIILetter, 32 = isASCIIDigit.
+func VerifByteClass(c byte) (bits int) {
+	if isASCIIPunctuation(c) {
+		bits |= 1
+	}
+	if isASCIIControl(c) {
+		bits |= 2
+	}
+	if isHex(c) {
+		bits |= 4
+	}
+	if isSpaceTabOrLineEnding(c) {
+		bits |= 8
+	}
+	if isASCIILetter(c) {
+		bits |= 16
+	}
+	if isASCIIDigit(c) {
+		bits |= 32
+	}
+	return bits
+}
+
+// VerifRuneClass reports the Unicode classifiers for c as a bit set:
+// 1 = isUnicodeWhitespace, 2 = isUnicodePunctuation.
+func VerifRuneClass(c rune) (bits int) {
+	if isUnicodeWhitespace(c) {
+		bits |= 1
+	}
+	if isUnicodePunctuation(c) {
+		bits |= 2
+	}
+	return bits
+}
